@@ -627,8 +627,11 @@ class Ctx:
             if self.branch(t == v):
                 return v
             n += 1
-            if n > 64:
-                raise PathCap("concretisation of %s exceeds 64 values" % t)
+            cap = self.stats.get("concretize_cap", 64)
+            if n >= cap:
+                # never success: the values beyond the cap are NOT covered (the obligation is reported inconclusive),
+                # but the paths of the values taken so far are explored in full, so a violation on them is still found
+                raise PathCap("concretisation of %s exceeds %d values" % (t, cap))
 
     # forall handling
     def add_forall(self, ndim, fn):
